@@ -168,14 +168,20 @@ class StubsLib(StubsBase):
         a, b = self.as_qty(a), self.as_qty(b)
         if a.dim != b.dim:
             raise PyExc("UnitConversionError", "incompatible units in isclose")
+        at = 0
         if atol is not None:
-            raise Unsupported("u.isclose with atol")
+            at = self.as_qty(atol)
+            if at.dim != b.dim:
+                raise PyExc("UnitConversionError", "incompatible units of atol in isclose")
+            if isinstance(at.val, SArr):
+                raise Unsupported("u.isclose with an array atol")
+            at = at.val
 
         def f(x, y):
             d = V.sub(x, y)
             ad = V.Ite(V.le(0, d), d, V.neg(d))
             ay = V.Ite(V.le(0, y), y, V.neg(y))
-            return V.le(ad, V.mul(rtol, ay))
+            return V.le(ad, V.add(at, V.mul(rtol, ay)))
         if isinstance(a.val, SArr) or isinstance(b.val, SArr):
             return A.elementwise(ctx, f, [a.val, b.val], DType("bool"))
         return V.simp(f(a.val, b.val))
